@@ -947,8 +947,8 @@ def random_next_input(rng, prev, maxlines=30):
     hist2 = [c] if kind == "fresh" else hist + [c]
     if c == prev["hist"][-1]:
         nw = prev["nw"]                     # the same text has the same number of lines
-    else:
-        nw = 0 if rng.random() < 0.07 else rng.randint(1, maxlines)
+    else:       # two different texts cannot both be empty
+        nw = 0 if (rng.random() < 0.07 and prev["nw"] != 0) else rng.randint(1, maxlines)
     n = len(hist2) - 1
     h0 = 0 if rng.random() < 0.6 else rng.randint(0, n)
     return {"hist": hist2, "h0": h0, "local0": ABSENT,      # fixed when the previous call has ended
